@@ -1464,7 +1464,7 @@ class ProcFamily:
         }
         res.assumptions = ["the stream is a stub: Send fails when the schedule says so, Recv returns what the schedule's environment steps delivered",
                            "which ready case a Go select takes cannot be forced: the outcome is logged and a schedule that assumed the other case is cut there",
-                           "liveness (every call returns) is proved on the specification under weak fairness for the small instances listed; on the implementation it is observed per step (a step the specification enables must be taken within 3 s)"]
+                           "liveness (every call returns) is proved on the specification under weak fairness for the small instances listed; on the implementation it is observed per step (a step the specification enables must be taken within 10 s)"]
         return res
 
     def replay(self, ctx, path):
